@@ -537,6 +537,19 @@ Definition value_inc (st : sstate) (name : list ch) (d : Z) : res sstate :=
   | None => Ok (st_insert st name (VV (Expr.SInt (0 + d))))
   end.
 
+(* a list of expression tokens executed one after the other, each value taken as soon as it is pushed (exec_args; the
+   items of MakeArray); `dflt` says what a token that pushes nothing contributes *)
+Definition eval_list (f : etok -> sstate -> res (option sval * sstate)) (dflt : option sval -> sval)
+  : list etok -> sstate -> res (list sval * sstate) :=
+  fix go (l : list etok) (st : sstate) : res (list sval * sstate) :=
+    match l with
+    | [] => Ok ([], st)
+    | x :: r =>
+        do p <- f x st;
+        do q <- go r (snd p);
+        Ok (dflt (fst p) :: fst q, snd q)
+    end.
+
 Section Step.
   (* exec() one nesting level down (blocks, function bodies) *)
   Variable exec_children : list stok -> res sstate -> res sstate.
@@ -562,29 +575,10 @@ Section Step.
 
   (* exec(song, [t]) for an expression token, on a state whose break_flag is 0: what it pushes, if anything *)
   Fixpoint eval_tok (t : etok) (st : sstate) : res (option sval * sstate) :=
-    (* exec_args over expression tokens (function_needs_return_value is set by the caller) *)
-    let eval_args := fix eval_args (l : list etok) (st : sstate) : res (list sval * sstate) :=
-      match l with
-      | [] => Ok ([], st)
-      | x :: r =>
-          do p <- eval_tok x st;
-          let '(v, st1) := p in
-          do q <- eval_args r st1;
-          let '(vs, st2) := q in Ok (opt_none v :: vs, st2)
-      end in
-    (* exec_value on each item (MakeArray) *)
-    let eval_items := fix eval_items (l : list etok) (st : sstate) : res (list sval * sstate) :=
-      match l with
-      | [] => Ok ([], st)
-      | x :: r =>
-          do p <- eval_tok x st;
-          let '(v, st1) := p in
-          do q <- eval_items r st1;
-          let '(vs, st2) := q in Ok (opt_zero v :: vs, st2)
-      end in
+    (* exec_args over expression tokens *)
     let exec_args_e (l : list etok) (st : sstate) : res (list sval * sstate) :=
       let tmp := ss_needs st in
-      do p <- eval_args l (st_set_needs st true);
+      do p <- eval_list eval_tok opt_none l (st_set_needs st true);
       let '(vs, st1) := p in Ok (vs, st_set_needs st1 tmp) in
     match t with
     | Expr.TConstInt v => Ok (Some (Expr.SInt v), st)
@@ -643,8 +637,9 @@ Section Step.
         end
     | Expr.TValueInc x d => do st1 <- value_inc st x d; Ok (None, st1)
     | Expr.TMakeArray items =>
+        (* exec_value on each item *)
         let tmp := ss_needs st in
-        do p <- eval_items items (st_set_needs st true);
+        do p <- eval_list eval_tok opt_zero items (st_set_needs st true);
         let '(vs, st1) := p in Ok (Some (Expr.SArr vs), st_set_needs st1 tmp)
     end.
 
